@@ -73,6 +73,7 @@ async def run_history(cap, rate, events):
 STEPS = [F(0), F(1, 8), F(1), F(8), F(300), F(4799, 8), F(600), F(4801, 8)]
 IPS = ["10.0.0.1", "::1"]
 
+MONITOR_ONLY = set()
 def histories(rng, tier):
     caps = [1, 2, 3]
     rates = [F(1, 8), F(1), F(1, 1024)]
@@ -118,12 +119,20 @@ def histories(rng, tier):
         ev = [("r", F(0), "10.%d.%d.%d" % (i >> 16, (i >> 8) & 255, i & 255)) for i in range(n_addr)]
         ev.append(("c", F(4801, 8)))
         cases.append((cap, F(1, 8), ev))
+    # more tracked addresses than any plausible bound on the table (a limiter that forgets an address because OTHER addresses
+    # arrived hands it a fresh allowance): one address exhausts its bucket, 12000 others make a request each, the first asks again
+    n_other = 12000
+    ev = [("r", F(0), "10.200.0.1"), ("r", F(0), "10.200.0.1")] + [("r", F(0), "10.%d.%d.%d" % (100 + (i >> 16), (i >> 8) & 255, i & 255)) for i in range(n_other)]
+    ev += [("r", F(1, 8), "10.200.0.1"), ("r", F(1, 8), "10.200.0.1")]
+    cases.append((1, F(1, 1024), ev))
+    MONITOR_ONLY.add(len(cases) - 1)      # judged by the monitor on the first address's own log; the model run would be quadratic
     return cases, exh
 
 def run(tier, seed):
     setup_impl()
     rng = random.Random(seed)
     res = Result()
+    MONITOR_ONLY.clear()
     cases, exh = histories(rng, tier)
     res.rule = ("all histories of <= %d events over 2 addresses x {request, clean-up pass} x time steps incl. 0, 1/8, 300, 600+1/8 s "
                 "(%d histories; thorough adds all 5-event histories over the steps 0, 1/8, 600+1/8; configurations cap 1..3 x rate 1/8, 1, 1/1024 rotated, cap 1 / rate 1/1024 always), plus random long runs, plus tables of 2600 (thorough: up to 5200) tracked addresses with one clean-up pass; "
@@ -133,17 +142,18 @@ def run(tier, seed):
         return [await run_history(c, r, ev) for c, r, ev in cases]
     impl = asyncio.run(go())
     mcases, iobs, mon = [], [], []
-    for (cap, rate, ev0), (dec_, ev) in zip(cases, impl):
-        sev = [["r", q(e[1]), e[2]] if e[0] == "r" else ["c", q(e[1])] for e in ev]
-        mcases.append(("bucket", enc([q(cap), q(rate), sev])))
-        iobs.append(enc([d if isinstance(d, bool) else str(d) for d in dec_]))
+    for ci, ((cap, rate, ev0), (dec_, ev)) in enumerate(zip(cases, impl)):
+        if ci not in MONITOR_ONLY:
+            sev = [["r", q(e[1]), e[2]] if e[0] == "r" else ["c", q(e[1])] for e in ev]
+            mcases.append(("bucket", enc([q(cap), q(rate), sev])))
+            iobs.append(enc([d if isinstance(d, bool) else str(d) for d in dec_]))
         reqs = [e for e in ev if e[0] == "r"]
         log = [[q(e[1]), e[2], bool(d is True)] for e, d in zip(reqs, dec_)]
         if len(log) <= 14:
             mon.append((len(mon), ("C10.ok", enc([q(cap), q(rate), log])), (cap, rate, ev, dec_)))
         elif len(set(l[1] for l in log)) > 50:
             # many addresses: the bound is per address - judge the first, the middle and the last tracked address on their own logs
-            ips_ = [l[1] for l in log[:len(set(l[1] for l in log))]]
+            ips_ = list(dict.fromkeys(l[1] for l in log))
             for ip in (ips_[0], ips_[len(ips_) // 2], ips_[-1]):
                 sub = [l for l in log if l[1] == ip]
                 sdec = [d for e, d in zip(reqs, dec_) if e[2] == ip]
